@@ -182,7 +182,7 @@ package testscript
 //@   ensures forall K {at(ts.archive.Files,K)} :: lo(ts.archive.Files) <= K && K < hi(ts.archive.Files) ==> sameStr(at(ts.archive.Files,K).Name, old(at(ts.archive.Files,K)).Name) && (!mapkeys(ts.scriptUpdates)[at(ts.archive.Files,K).Name] ==> sameSlice(at(ts.archive.Files,K).Data, old(at(ts.archive.Files,K)).Data))
 
 // ---- C01: verdict logic ----
-//@ property C01: (*TestScript).run, (*TestScript).runLine, (*TestScript).Fatalf, catchFailNow, (*TestScript).cmdExists, scriptMatch, (*TestScript).MkAbs, (*TestScript).Check, (*TestScript).cmdCd, (*TestScript).cmdChmod, (*TestScript).cmdCp, (*TestScript).cmdMkdir, (*TestScript).cmdMv, (*TestScript).cmdRm, (*TestScript).cmdSymlink, (*TestScript).cmdUnquote, (*TestScript).cmdUNIX2DOS, (*TestScript).cmdStdin, (*TestScript).cmdStop, (*TestScript).cmdCmp, (*TestScript).cmdCmpenv, (*TestScript).cmdWait, (*TestScript).cmdSkip, (*TestScript).cmdStdout, (*TestScript).cmdStderr, (*TestScript).cmdGrep, (*TestScript).cmdTtyout, (*TestScript).Chdir, (*TestScript).ReadFile
+//@ property C01: (*TestScript).run, (*TestScript).runLine, (*TestScript).Fatalf, catchFailNow, (*TestScript).cmdExists, scriptMatch, (*TestScript).MkAbs, (*TestScript).Check, (*TestScript).condition, (*TestScript).cmdCd, (*TestScript).cmdChmod, (*TestScript).cmdCp, (*TestScript).cmdMkdir, (*TestScript).cmdMv, (*TestScript).cmdRm, (*TestScript).cmdSymlink, (*TestScript).cmdUnquote, (*TestScript).cmdUNIX2DOS, (*TestScript).cmdStdin, (*TestScript).cmdStop, (*TestScript).cmdCmp, (*TestScript).cmdCmpenv, (*TestScript).cmdWait, (*TestScript).cmdSkip, (*TestScript).cmdStdout, (*TestScript).cmdStderr, (*TestScript).cmdGrep, (*TestScript).cmdTtyout, (*TestScript).Chdir, (*TestScript).ReadFile
 
 //@ extern (github.com/rogpeppe/go-internal/testscript.T).FailNow(t)
 //@   noreturn
@@ -212,9 +212,41 @@ package testscript
 //@ func (*TestScript).cmdSuggestions
 //@   trusted
 //@   pure
-//@ func (*TestScript).condition
+// condition: the built-in conditions mean what the documentation says (this model is
+// GOOS=linux, GOARCH=amd64): an operating-system name holds exactly for linux, an
+// architecture name exactly for amd64, unix as the table says, exec:prog is the cached
+// result of looking prog up; anything else is the user's Condition function, and an
+// unknown condition without one never returns (Fatalf).
+//@ ghost var gGoVerCond Bool
+//@ pure func builtinCond(c string) bool = c == "short" || c == "net" || c == "link" || c == "symlink"
+//@ extern testing.Short() (r)
+//@   pure
+//@ extern github.com/rogpeppe/go-internal/testenv.HasExternalNetwork() (r)
+//@   pure
+//@ extern github.com/rogpeppe/go-internal/testenv.HasLink() (r)
+//@   pure
+//@ extern github.com/rogpeppe/go-internal/testenv.HasSymlink() (r)
+//@   pure
+//@ extern (*github.com/rogpeppe/go-internal/par.Cache).Do(c, key, f) (r)
+//@   pure
+//@ extern slices.Contains(s, v) (r)
+//@   pure
+//@ func condition$1
 //@   trusted
 //@   pure
+//@ func (*TestScript).condition
+//@   requires ts != nil
+//@   names (r, err)
+//@   assume_typeasserts
+//@   callee ts.params.Condition(cond) (r, err): pure
+//@   modifies nothing
+//@   ensures builtinCond(cond) ==> err == nil
+//@   ensures !builtinCond(cond) && imports.KnownOS[cond] ==> err == nil && r == (cond == "linux")
+//@   ensures !builtinCond(cond) && !imports.KnownOS[cond] && cond == "unix" ==> err == nil && r == imports.UnixOS["linux"]
+//@   ensures !builtinCond(cond) && !imports.KnownOS[cond] && cond != "unix" && imports.KnownArch[cond] ==> err == nil && r == (cond == "amd64")
+//@   at call (*regexp.Regexp).MatchString#1: bind gGoVerCond = r
+//@   ensures !builtinCond(cond) && !imports.KnownOS[cond] && cond != "unix" && !imports.KnownArch[cond] && !(len(cond) >= 5 && cond[0] == 'e' && cond[1] == 'x' && cond[2] == 'e' && cond[3] == 'c' && cond[4] == ':') && cond != "gc" && cond != "gccgo" && !gGoVerCond ==> ts.params.Condition != nil
+//@   ensures !builtinCond(cond) && !imports.KnownOS[cond] && cond != "unix" && !imports.KnownArch[cond] && (cond == "gc" || cond == "gccgo") ==> err == nil && r == (cond == "gc")
 //@ func (*TestScript).callBuiltinCmd
 //@   trusted
 //@   requires ts != nil
@@ -230,9 +262,11 @@ package testscript
 //@ func tempEnvName
 //@   trusted
 //@   pure
+// writeFile: opened for writing with create+truncate, exclusively exactly when asked to.
 //@ func writeFile
-//@   trusted
-//@   modifies fs*, fd*, failBudget
+//@   modifies fs*, fd*, failBudget, gCleanup, alloc
+//@   at call os.OpenFile#1: requires (excl ==> flag == 705) && (!excl ==> flag == 577) && sameStr(name, my_name)
+//@   at call (*os.File).Write#1: requires sameSlice(b, data)
 //@ extern github.com/rogpeppe/go-internal/txtar.ParseFile(file) (a, err)
 //@   modifies new F_S_txtar_Archive_*, new H_*
 //@   ensures err == nil ==> a != nil && fresh(a)
@@ -385,7 +419,7 @@ package testscript
 //@   ensures !neg ==> matchP(re, my_text) && (n > 0 ==> countP(re, my_text) == n)
 
 // ---- C04: isolation and clean-up ----
-//@ property C04: (*TestScript).setup, (*TestScript).run, run$3, (*TestScript).waitBackground, (*TestScript).cmdExec, cmdExec$1, waitOrStop, (*TestScript).exec, (*TestScript).execBackground, (*TestScript).Defer, Defer$1, RunT, RunT$1, RunT$1$2, removeAll
+//@ property C04: (*TestScript).setup, writeFile, (*TestScript).run, run$3, (*TestScript).waitBackground, (*TestScript).cmdExec, cmdExec$1, waitOrStop, (*TestScript).exec, (*TestScript).execBackground, (*TestScript).Defer, Defer$1, RunT, RunT$1, RunT$1$2, removeAll
 
 // Defer: the new chain runs f first and the old chain afterwards, and the old chain is
 // already deferred when f is called (so it runs even if f panics): LIFO.
